@@ -128,8 +128,8 @@ struct proc {
     int64_t wait_prio;
     uint64_t pool_held, pool_req; int in_ppre; double ppre_time;
     uint64_t *amt_ptr, amt_req;
-    double c_true_at; int c_must, c_src;
-    double prio_time;
+    double c_true_at; int c_must, c_src, c_head;
+    double prio_time, cw_since, c_mark;
     uint64_t timers[4]; int ntimers;
 };
 static struct proc P[4];
@@ -141,6 +141,7 @@ static struct cmb_resourcepool *PL;
 static uint64_t poolcap;
 static struct cmb_buffer *B;
 static uint64_t bufcap, buf_level;
+static int any_get_started;
 static struct cmb_objectqueue *OQ;
 static struct cmb_priorityqueue *PQ;
 static uint64_t qcap;
@@ -316,10 +317,19 @@ static bool cpred_free(const struct cmb_condition *cv, const struct cmb_process 
 /* a state change / signal happened now: every waiter whose predicate holds must be resumed at this instant */
 static int mark_satisfied_waiters(int src)
 {
-    int any = 0;
+    int any = 0, sat[4] = {0, 0, 0, 0};
+    for (int i = 0; i < NPROC; i++) sat[i] = (P[i].waiting == W_CWAIT && P[i].wait_arg == 0 && !P[i].c_must && (OBSERVE ? owner < 0 : cstate >= cthr[i]));
     for (int i = 0; i < NPROC; i++) {
-        if (P[i].waiting == W_CWAIT && P[i].wait_arg == 0 && !P[i].c_must && (OBSERVE ? owner < 0 : cstate >= cthr[i])) { P[i].c_must = 1; P[i].c_src = src; P[i].wait_since = cmb_time(); any = 1; }
+        if (!sat[i]) continue;
+        /* is this the best-ranked waiter still queued on the condition (no other queued waiter ahead of it or tied with it)? */
+        int head = 1;
+        for (int j = 0; j < NPROC; j++) {
+            if (j == i || P[j].waiting != W_CWAIT || P[j].wait_arg != 0 || P[j].c_must) continue;
+            if (P[j].wait_prio > P[i].wait_prio || (P[j].wait_prio == P[i].wait_prio && P[j].cw_since <= P[i].cw_since)) head = 0;
+        }
+        P[i].c_head = head;
     }
+    for (int i = 0; i < NPROC; i++) if (sat[i]) { P[i].c_must = 1; P[i].c_src = src; P[i].c_mark = cmb_time(); any = 1; }
     return any;
 }
 
@@ -593,6 +603,7 @@ static void step(int id, int op)
         uint64_t lvl0 = buf_level;
         (void)lvl0;
         P[id].amt_ptr = &amt; P[id].amt_req = n;
+        if (op == OP_BGET) any_get_started = 1;
         P[id].waiting = op == OP_BPUT ? W_BPUT : W_BGET; P[id].wait_since = now; P[id].wait_prio = P[id].prio;
         int64_t r = op == OP_BPUT ? cmb_buffer_put(B, &amt) : cmb_buffer_get(B, &amt);
         uint64_t moved = op == OP_BPUT ? n - amt : amt;
@@ -600,7 +611,12 @@ static void step(int id, int op)
         else { account_signal(id, r, "buffer"); sym_assert(moved <= n, "interrupted put/get reports at most the requested amount"); }
         sym_tag("buffer_partial", moved != 0 && moved != n);
         /* the level bookkeeping for partial transfers is done by the per-transfer hook below (levels change while blocked) */
-        if (op == OP_BPUT) buf_level += moved; else buf_level -= moved;
+        if (op == OP_BPUT) {
+            if (!any_get_started) sym_assert(moved <= bufcap - buf_level, "without any consumer a put never moves more than the free space");
+            buf_level += moved;
+        } else {
+            buf_level -= moved;
+        }
         after_block(id);
         break; }
     /* ---------------- object queue (C12) */
@@ -685,11 +701,16 @@ static void step(int id, int op)
     case OP_CWAIT: {
         cthr[id] = sym_range(0, 3, "cthr");
         P[id].waiting = W_CWAIT; P[id].wait_since = now; P[id].wait_prio = P[id].prio; P[id].wait_arg = 0;
-        P[id].c_true_at = -1.0; P[id].c_must = 0;
+        P[id].c_true_at = -1.0; P[id].c_must = 0; P[id].cw_since = now;
         int64_t r = OBSERVE ? cmb_condition_wait(CV, cpred_free, 0) : cmb_condition_wait(CV, cpred, (void *)(intptr_t)id);
         if (r == CMB_PROCESS_SUCCESS) {
             sym_assert(P[id].c_true_at == cmb_time(), "a condition waiter is resumed with success only at an instant at which its predicate was found true");
             sym_assert(P[id].c_must == 1, "no condition waiter is resumed whose predicate was false at the signal");
+            if (P[id].c_must) {
+                sym_tag("forwarded_signal", P[id].c_src == 2);
+                sym_tag("head_waiter", P[id].c_head != 0);
+                sym_assert(P[id].c_mark == cmb_time(), "a condition waiter whose predicate was true at a signal is resumed in that same instant");
+            }
         } else account_signal(id, r, "condition wait");
         P[id].c_must = 0;
         after_block(id);
@@ -807,6 +828,7 @@ void h_sim(void)
         case W_QGET: sym_assert(cmb_priorityqueue_length(PQ) == 0, "no getter stays blocked on a priority queue with content"); break;
         case W_CWAIT:
             sym_tag("forwarded_signal", P[i].c_must && P[i].c_src == 2);
+            sym_tag("head_waiter", P[i].c_must && P[i].c_head);
             sym_assert(!P[i].c_must, "a condition waiter whose predicate was true at a signal is resumed");
             break;
         case W_YIELD: break;
